@@ -121,7 +121,7 @@ def run(tier, seed, only=None):
                "0/200/400 gon, permutation of points/clusters/observations, renaming incl. UTF-8 and inner blanks, "
                "degrees, swapped distance ends, 8 axes-xy x 2 handedness}; class = (transformation, network kind, "
                "inconsistent handedness?, features)")
-    n = tier_n(tier, 36, 600)
+    n = tier_n(tier, 100, 600)
     jobs = []
     for i in range(n):
         if only is not None and i != only:
@@ -176,7 +176,7 @@ def run(tier, seed, only=None):
         same_point = g0.xml.get("iterations") == g.xml.get("iterations")
         ck.count("runs with equal iteration counts" if same_point else "runs with different iteration counts")
         bad = netlevel.compare_physical(A, B, what=what) if same_point else \
-            netlevel.compare_physical(A, B, what=what, tol_m=1e-6, rel=2e-4, res_tol=1e-2)
+            netlevel.compare_physical(A, B, what=what, tol_m=1e-6, rel=netlevel.rel_between_linearisation_points(net), res_tol=1e-2)
         corr = netlevel.correlated_obs_keys(net)
         seen_k = set()
         for key, msg, okey in bad:
